@@ -69,6 +69,19 @@ def validate_batch(scs, tag, invariants=INVARIANTS):
         recs = [_Rec(s) for s in rest]
         r = scen.validate(recs, "%s-%d" % (tag, part), invariants=invariants, keep=True)
         states += r["states"] or 0
+        # occurrences of known findings met by this run (they do not stop TLC), attributed to their scenario
+        for pid_k, sig_k, gl in r.get("known_hits", []):
+            if r["line"] is not None and gl > r["line"]:
+                continue
+            acc_k = 0
+            for s_k in rest:
+                if gl <= acc_k + len(s_k["lines"]):
+                    ev_k = s_k["lines"][gl - acc_k - 1]
+                    findings.append({"scenario": s_k, "violated": "NoPropertyViolation", "line": gl - acc_k + s_k.get("offset", 0),
+                                     "step": ev_k.get("e"), "what": ev_k.get("what"), "diag": None, "known": True,
+                                     "pviol": '<<"%s", "%s", <<>>>>' % (pid_k, sig_k), "trace_file": r["path"]})
+                    break
+                acc_k += len(s_k["lines"])
         if r["accepted"]:
             accepted += len(rest)
             _cleanup(r)
@@ -151,7 +164,7 @@ def report(v, f, rerun=True):
     reported = False
     for pid, sig, text in classify_all(f):
         confirmed = True
-        if rerun:
+        if rerun and not f.get("known"):
             if f2 is None:
                 again = _run_scenario((sc["seed"], sc["conf"], sc["profile"], sc["nsteps"], sc.get("script"), sc["seed"] + 1000003))
                 if again.get("err"):
